@@ -147,11 +147,21 @@ class Solver(object):
                 solved_values.update(s)
                 progress = progress or (len(s) > 0)
 
+        # atoms are named x_0, x_1, ... (w_0, ...): order them by stack position, not by name as text
+        # ("x_10" < "x_2"), otherwise solutions with more than ten items come out permuted
+
+        def stack_position(k: Any) -> int:
+            return int(k.name.split("_")[1])
+
         x_keys = sorted(
-            (k for k in solved_values.keys() if k.name.startswith("x")), reverse=True
+            (k for k in solved_values.keys() if k.name.startswith("x")),
+            key=stack_position,
+            reverse=True,
         )
         w_keys = sorted(
-            (k for k in solved_values.keys() if k.name.startswith("w")), reverse=True
+            (k for k in solved_values.keys() if k.name.startswith("w")),
+            key=stack_position,
+            reverse=True,
         )
         solution_list = [solved_values.get(k) for k in x_keys]
         witness_list = [solved_values.get(k) for k in w_keys]
